@@ -92,7 +92,7 @@ def escape_obligations(ctx, rule, repo, entry, tolerant, allowed_families, what)
     return n
 
 
-def g_obligations(ctx, rule_prefix, repo, entries, rules=('G1', 'G2', 'G3', 'G4', 'G5', 'G6', 'G7', 'G9', 'G10', 'G11')):
+def g_obligations(ctx, rule_prefix, repo, entries, rules=('G1', 'G2', 'G3', 'G4', 'G5', 'G6', 'G7', 'G9', 'G10', 'G11', 'G12')):
     """REFUTED obligations for crash constructs in functions reachable from `entries`; one HOLDS
     obligation per rule summarising the scan."""
     prog = program(repo)
@@ -106,10 +106,23 @@ def g_obligations(ctx, rule_prefix, repo, entries, rules=('G1', 'G2', 'G3', 'G4'
         path = ' > '.join(k.split(':', 1)[1] for k in prog.path_to(reach, x.fnkey)[:7])
         ctx.refuted(x.rule, x.mod, x.node, x.reason + ' [reachable: %s]' % path, construct=x.construct)
     for r in rules:
+        if r == 'G12':
+            continue
         if not hit[r]:
             ctx.holds(r, None, None, 'no %s construct in the %d functions reachable from %s'
                       % (r, len(reach), ', '.join(e.qual for e in entries)),
                       construct='%s scan of %d reachable functions' % (r, len(reach)))
+    if 'G12' in rules:
+        rf = grules.regex_findings(repo)
+        for mod_, node_, pat_, d_ in rf:
+            ctx.refuted('G12', mod_, node_, 'the pattern %r contains %s: on an input that almost matches (a long '
+                        'environment name with one wrong character, a missing closing brace) matching takes '
+                        'exponential time -- the call does not return' % (pat_[:80], d_),
+                        construct='regex %r' % pat_[:60])
+        if not rf:
+            ctx.holds('G12', None, None, 'no regular-expression literal of the package nests an unbounded '
+                      'repetition inside an unbounded repetition with only optional parts around it',
+                      construct='G12 scan of regex literals')
     ctx.analysed['reachable_functions'] = len(reach)
     return reach
 
@@ -127,6 +140,8 @@ G_TEXT = {
     'G7': 'G7: a constant index into a node/argument list is dominated by a length or truthiness '
           'test of that list',
     'G9': 'G9: a position value is never tested by truthiness',
+    'G12': 'G12: no regular-expression literal can backtrack exponentially (nested unbounded repetitions '
+           'separated only by optional parts)',
     'G11': 'G11: standard-library calls that raise for part of their domain (unicodedata.name without '
            'default) are given a default or are inside a handler for that exception',
     'G10': 'G10: a fixed module-level table is subscripted only with a literal member key, under a '
@@ -134,6 +149,6 @@ G_TEXT = {
 }
 
 
-def declare_g(ctx, rules=('G1', 'G2', 'G3', 'G4', 'G5', 'G6', 'G7', 'G9', 'G10', 'G11')):
+def declare_g(ctx, rules=('G1', 'G2', 'G3', 'G4', 'G5', 'G6', 'G7', 'G9', 'G10', 'G11', 'G12')):
     for r in rules:
         ctx.rule(r, G_TEXT[r], 1)
